@@ -725,7 +725,7 @@ func (v *FV) preserveAcrossHavocIn(prev, s *Snapshot, loopBody map[*ssa.BasicBlo
 		// objects are never un-allocated
 		v.emit(fmt.Sprintf("(assert (>= %s %s))", v.topOf(s), v.topOf(prev)))
 	}
-	for _, g := range []string{"CALLS", "ARGNN", "ARGV", "CALLS$n", "ARGNN$n", "ARGV$n"} {
+	for _, g := range []string{"CALLS", "ARGNN", "ARGV", "LOCKED", "CALLS$n", "ARGNN$n", "ARGV$n", "LOCKED$n"} {
 		if _, ok := v.arrays[g]; ok {
 			s.over[g] = v.heapGet(prev, g)
 		}
